@@ -423,7 +423,7 @@ pub fn c09(o: &Oracle, thorough: bool, seed: u64, rep: &Report) {
             let s = v5[colex_rank(&sub)].load(Ordering::Relaxed);
             m = m.min(s);
         }
-        if v != m || v == 0 {
+        if v != m {
             viol(rep, json!({"op":"rankn","words":hilo_arr(&w)}), json!({"value": m}), "six-card value is not the smallest of its six five-card values");
         }
         if ctr % 3_000_000 == 0 {
@@ -478,7 +478,7 @@ pub fn c09(o: &Oracle, thorough: bool, seed: u64, rep: &Report) {
             }
             m = m.min(v6[colex_rank(&sub)].load(Ordering::Relaxed));
         }
-        if v != m || v == 0 {
+        if v != m {
             viol(rep, json!({"op":"deal","words":hilo_arr(&w)}), json!({"v7": m}), "seven-card value is not the smallest of its seven six-card values");
         }
     });
@@ -510,10 +510,12 @@ pub fn c13(o: &Oracle, _thorough: bool, seed: u64, rep: &Report) {
             if pi > 1 {
                 // the remaining 118 slot orders: the four predicates and the two bit observables only
                 let got = guarded(|| (f.is_flush(), f.is_straight(), f.is_straight_flush(), f.is_wheel(), f.or_rank_bits()));
-                if got != Ok((e_flush, e_straight, e_sf, e_wheel, e_or)) {
+                if got.as_ref().map(|g| (g.0, g.1, g.2, g.3)) != Ok((e_flush, e_straight, e_sf, e_wheel)) {
                     viol(rep, json!({"op":"rank5","words":hilo_arr(&w)}),
-                         json!({"flush": e_flush, "straight": e_straight, "straight_flush": e_sf, "wheel": e_wheel, "or_rank_bits": e_or}),
+                         json!({"flush": e_flush, "straight": e_straight, "straight_flush": e_sf, "wheel": e_wheel}),
                          "flush / straight / straight-flush / wheel predicate disagrees with the hand's category");
+                } else if got.as_ref().map(|g| g.4) != Ok(e_or) {
+                    advise(rep, json!({"op":"rank5","words":hilo_arr(&w)}), json!({"or_rank_bits": e_or}), "or_rank_bits differs from the OR of the cards' rank flags (mechanism, not named by the statement)");
                 }
                 continue;
             }
@@ -534,15 +536,19 @@ pub fn c13(o: &Oracle, _thorough: bool, seed: u64, rep: &Report) {
             match got {
                 Ok((fl, st, sf, wh, orb, andb, dfl, dor, name)) => {
                     let e_and = w[0] & w[1] & w[2] & w[3] & w[4];
-                    if fl != e_flush || st != e_straight || sf != e_sf || wh != e_wheel || dfl != e_flush || name != cls.category {
+                    if fl != e_flush || st != e_straight || sf != e_sf || wh != e_wheel || dfl != e_flush {
                         viol(rep, json!({"op":"rank5","words":hilo_arr(&w)}),
-                             json!({"flush": e_flush, "straight": e_straight, "straight_flush": e_sf, "wheel": e_wheel, "dep_flush": e_flush, "name": cls.category}),
+                             json!({"flush": e_flush, "straight": e_straight, "straight_flush": e_sf, "wheel": e_wheel, "dep_flush": e_flush}),
                              "flush / straight / straight-flush / wheel predicate disagrees with the hand's category");
                     }
-                    if orb != e_or || dor as u32 != e_or || andb != e_and {
-                        viol(rep, json!({"op":"rank5","words":hilo_arr(&w)}),
-                             json!({"or_rank_bits": e_or, "dep_or": e_or, "and_bits": hilo(e_and)}),
-                             "or_rank_bits / and_bits differ from the OR / AND of the cards' fields");
+                    if dor as u32 != orb {
+                        viol(rep, json!({"op":"rank5","words":hilo_arr(&w)}), json!({"dep_or": orb}), "the deprecated free function or_rank_bits disagrees with the method");
+                    }
+                    // what the category reported by ranking is belongs to C01 / C06; the bit observables are mechanism
+                    if name != cls.category || orb != e_or || andb != e_and {
+                        advise(rep, json!({"op":"rank5","words":hilo_arr(&w)}),
+                               json!({"or_rank_bits": e_or, "and_bits": hilo(e_and), "name": cls.category}),
+                               "category reported by ranking / or_rank_bits / and_bits drift (not what C13 states)");
                     }
                 }
                 Err(_) => viol(rep, json!({"op":"rank5","words":hilo_arr(&w)}), json!({"flush": e_flush}), "predicate unwound"),
@@ -595,8 +601,9 @@ pub fn c08(o: &Oracle, thorough: bool, seed: u64, rep: &Report) {
                 w[k] = o.cards[di(c.rank, sg[c.suit])].w;
             }
             let v = guarded(|| rank_value(&Hand::from_words(&w)));
-            if v != v0 || v != Ok(exp) {
-                viol(rep, json!({"op":"rank5","words":hilo_arr(&w)}), json!({"value": exp}), "value changes under a relabelling of the suits");
+            // code against code: what the value is belongs to C01
+            if v != v0 || v.is_err() {
+                viol(rep, json!({"op":"rank5","words":hilo_arr(&w)}), json!({"value": v0.clone().unwrap_or(exp)}), "value changes under a relabelling of the suits");
             }
         }
         rep.eval(24);
@@ -616,6 +623,7 @@ pub fn c08(o: &Oracle, thorough: bool, seed: u64, rep: &Report) {
             let w = o.words(idx);
             let mut h = Hand::from_words(&w);
             let v0 = guarded(|| rank_value(&h));
+            let vv0 = guarded(|| rank_value_validated(&h));
             let mut cur = w.clone();
             for _ in 0..3 {
                 let nh = match guarded(|| h.shift_suit()) {
@@ -630,6 +638,10 @@ pub fn c08(o: &Oracle, thorough: bool, seed: u64, rep: &Report) {
                     viol(rep, json!({"op":"shift_hand","pre":hilo_arr(&cur)}), json!({"res": hilo_arr(&expw)}), "hand shift is not the slot-wise card shift");
                 }
                 let v = guarded(|| rank_value(&nh));
+                let vv = guarded(|| rank_value_validated(&nh));
+                if vv != vv0 {
+                    viol(rep, json!({"op":"rankn","words":hilo_arr(&nh.to_arr())}), json!({"v_validated": vv0.clone().unwrap_or(0)}), "validated value changes under suit shifting");
+                }
                 if v != v0 {
                     viol(rep, json!({"op":"rankn","words":hilo_arr(&nh.to_arr())}), json!({"value": v0.clone().unwrap_or(0)}), "value changes under suit shifting");
                 }
